@@ -100,6 +100,8 @@ def run(chk, replay=None):
             "LM responses for 7-bit ASCII passwords; OEM (non-Unicode) AUTHENTICATE messages not exercised",
             "for the AUTHENTICATE message the verifier uses user and domain found in the message, as a server would",
         ]
+        # ---- the same entry points called by 8 goroutines at once (race-detector build): results as when called alone
+        vlib.parallel_callers(chk, "ntlmv1")
     finally:
         shutil.rmtree(d, ignore_errors=True)
 
